@@ -66,6 +66,11 @@ CHECKS = {
          "Generated applications (0..4 host sub-apps with literal / wildcard host patterns, 0..6 HTTP and 0..3 WebSocket routes each, plus a default app; patterns over a tiny segment alphabet so they overlap and shadow) are started as a real App on loopback; 30 requests each (Host absent / exact / wildcard-matching / with port / non-matching / matching several hosts; paths matching several, one or no route; optional query; plain and WebSocket upgrade). Each handler answers with its identity; a reference router built on the reference glob matcher predicts the handler by the stated rule (first matching host, first matching route in it, else first matching default route, else 404 / connection closed without upgrade).",
          "Trusts the reference router and glob matcher. Threaded runtime only so far (tokio twin pending).",
          "DESIGN.md §5 C04"),
+ "C01": ("exploration",
+         "stateful proptest generation of connection scripts x client write segmentations against a real App on loopback; oracle = reference connection model + strict reference response parser; probe-based (not timeout-based) keep-alive/close decisions; handler-side dispatch log",
+         "Scripts of 1..6 steps (5 methods x routed/unrouted/CORS/echo/empty/70 KB/panicking targets x Connection absent/close/keep-alive in four letter cases x HTTP/1.0|1.1 x Content-Length bodies incl. request-looking and >8 KiB ones x 7 malformed kinds x idle past the timeout), pool size 1..4, delivered per request / byte-wise / in random segments, with sequential or pipelined boundaries, run against a real threaded App. A reference model predicts every response: status, echoed version, one IMF-fixdate Date, Server, exactly the route's CORS headers, Content-Length framing equal to the body, the body itself (which restates the request the handler saw), 400/408 + close, EOF without bytes for a panicking handler; whether the connection stays open is decided by a follow-up request that must (or must not) be answered; the handlers' dispatch log must equal the well-formed routed requests sent. After panics new connections and N simultaneous keep-alive connections on an N-thread pool must still be served.",
+         "Trusts the reference model and response parser; the kernel may coalesce client segments (weakens coverage only). Known findings tolerated and counted: stray CRLF after bodies (K2) and loss of pipelined read-ahead bytes (K1; tails after a pipelined boundary are judged leniently: only exact later responses in order or 400s). Threaded runtime only so far.",
+         "DESIGN.md §5 C01"),
 }
 
 NOT_YET = "check not built yet (work in progress; see DESIGN.md §5 for the intended design)"
